@@ -107,8 +107,8 @@ type stepCase struct {
 	St      ref.State `json:"state"`
 	MemSeed uint64    `json:"memseed"`
 	IOSeed  uint64    `json:"ioseed"`
-	Fill    int       `json:"fill"`   // -1 = hashed contents, else constant byte
-	IOFill  int       `json:"iofill"` // -1 = hashed port data, else constant byte
+	Fill    int       `json:"fill"`               // -1 = hashed contents, else constant byte
+	IOFill  int       `json:"iofill"`             // -1 = hashed port data, else constant byte
 	NilIO   bool      `json:"nil_io,omitempty"`   // emulator runs without an I/O device (IOFill must be 0)
 	MemKind int       `json:"mem_kind,omitempty"` // 0 recording bus, 1 DumbMemory, 2 MapMemory
 	// RaiseAt > 0: a device callback raises a request at the RaiseAt-th bus access of this Step (RaiseNMI: an NMI,
@@ -127,10 +127,10 @@ type stepRig struct {
 	retn   counter
 	reti   counter
 	// variations of the machine the emulator runs on (the model always runs on its recording bus)
-	nilIO   bool             // no I/O device attached: port writes vanish, port reads give 0
-	memKind int              // 0: recording bus, 1: the bundled DumbMemory (64 KiB), 2: the bundled MapMemory
-	dumb    z80.DumbMemory   // reused between cases; only the cells a case needs are initialised
-	prev    z80.CPU          // the CPU value of the previous case (see run)
+	nilIO   bool           // no I/O device attached: port writes vanish, port reads give 0
+	memKind int            // 0: recording bus, 1: the bundled DumbMemory (64 KiB), 2: the bundled MapMemory
+	dumb    z80.DumbMemory // reused between cases; only the cells a case needs are initialised
+	prev    z80.CPU        // the CPU value of the previous case (see run)
 }
 
 const (
@@ -210,10 +210,13 @@ func (r *stepRig) run(c *stepCase, code []uint8) stepOutcome {
 		}
 		r.cpu.Memory = r.dumb
 	case memMap:
+		// sparse: cells holding the type's default 0xC7 stay absent from the map (Get must supply the default)
 		mm = z80.MapMemory{}
 		for _, x := range r.mb.Log {
 			if x.K == bus.Read || x.K == bus.Write {
-				mm[x.Addr] = r.ib.Peek(x.Addr)
+				if v := r.ib.Peek(x.Addr); v != 0xC7 {
+					mm[x.Addr] = v
+				}
 			}
 		}
 		r.cpu.Memory = mm
@@ -502,6 +505,9 @@ func (p *stepProp) one(d *stepDraw, ei int, t failer) {
 		c.MemKind = memDumb
 	case 3:
 		c.MemKind = memMap
+		if d.memSeed>>13&1 == 0 {
+			c.Fill = 0xC7 // all data cells hold MapMemory's default: none of them is in the map
+		}
 	case 4:
 		// a device raises a request in the middle of the instruction
 		c.RaiseAt = 1 + int(d.memSeed>>12)%6
